@@ -385,7 +385,7 @@ class Extractor:
         self.arrays[name] = (elem, n, vals)
         return name
 
-    def names_referenced_after_if(self, cname, iford):
+    def names_referenced_after_if(self, cname, iford, inclusive=False):
         """names of parameters / locals referenced by the statements that FOLLOW the given (top-level) if statement in
         the body of function cname -- used to state that the rest of a function depends on its inputs only through
         the variables observed at that cut point"""
@@ -403,7 +403,7 @@ class Extractor:
                 names.add(n['referencedDecl'].get('name'))
             for c in kids(n):
                 walk(c)
-        for st in stmts[idx[0] + 1:]:
+        for st in stmts[idx[0] + (0 if inclusive else 1):]:
             walk(st)
         return names
 
@@ -680,7 +680,11 @@ class FnTranslator:
                 return [I + ';']
             self.if_ord += 1
             iford = self.if_ord
-            out = [I + 'if (%s)' % self.expr(ch[0])]
+            out = []
+            gb = self.ex.ghost.get((self.cname, ('before_if', iford)))
+            if gb:
+                out.append(I + gb)
+            out.append(I + 'if (%s)' % self.expr(ch[0]))
             out.append(self.block_with_ghost(ch[1], ('if_then_begin', iford)))
             if n.get('hasElse'):
                 out.append(I + 'else')
